@@ -194,7 +194,7 @@ class Rig:
     """One storage of one backend plus helpers; use `async with Rig(...)`."""
 
     def __init__(self, backend, validators=None, config=None, clock=None, path=None,
-                 file_db=None, storage_opts=None):
+                 file_db=None, storage_opts=None, analysis_backlog=0):
         self.backend = backend
         self.validators = validators
         self.config = config or {}
@@ -202,6 +202,7 @@ class Rig:
         self.path = path
         self.file_db = file_db
         self.storage_opts = storage_opts or {}
+        self.analysis_backlog = analysis_backlog  # LMDB: plans already waiting for the (slow) analysis thread, 0..30
         self.storage = None
         self.conns = []
         self.stuck = []  # set by settle(): coroutine chains of tasks blocked on a lock nobody will release
@@ -252,7 +253,14 @@ class Rig:
                 kv.WriterThread.join = lambda self, timeout=None: None
                 kv.WriterThread._verif_patched = True
                 kv.analyze.ANALYSIS_THREAD = object()  # never start the analysis thread
-                kv.ANALYSIS_QUEUE.put_nowait = lambda plans: None
+                kv._verif_analysis_size = kv.ANALYSIS_QUEUE.maxsize
+            # the statistics queue is process-global and drained by a thread at one entry per analysis_delay: the harness
+            # never runs that thread (the slowest consumer there is) and starts every storage with a queue of its own
+            import queue as _queue
+
+            kv.ANALYSIS_QUEUE = _queue.Queue(maxsize=kv._verif_analysis_size)
+            for _ in range(min(self.analysis_backlog or 0, kv._verif_analysis_size)):
+                kv.ANALYSIS_QUEUE.put_nowait(kv.QueryPlans())
             if self.path is None:
                 self.path = "/verif-kv/%d-%d" % (os.getpid(), next(_kv_counter))
                 lmdb._reset(self.path)
@@ -467,6 +475,8 @@ class Conn:
         self.closed = None
         self.in_recv = False
         self.send_turns = 0
+        self.stalled = False  # the peer stopped reading: ws_send blocks until unstall()
+        self.unstalled = asyncio.Event()
         self.n_fed = 0     # messages queued by the harness
         self.n_taken = 0   # messages handed to the handler
         self.n_done = 0    # messages the handler has finished with (it asked for the next one)
@@ -484,6 +494,11 @@ class Conn:
     async def _send(self, m):
         if self.disconnected:
             raise falcon.WebSocketDisconnected()
+        while self.stalled:
+            self.unstalled.clear()
+            await self.unstalled.wait()
+            if self.disconnected:
+                raise falcon.WebSocketDisconnected()
         for _ in range(self.send_turns):  # a slow reader: each frame takes some event-loop turns to go out
             await asyncio.sleep(0)
             if self.disconnected:
@@ -511,6 +526,11 @@ class Conn:
 
     async def _close(self, code=1000):
         self.closed = code
+
+    def stall(self, on=True):
+        self.stalled = on
+        if not on:
+            self.unstalled.set()
 
     def feed(self, msg, turns=1):
         """queue a message (object -> JSON text; str sent raw; None = disconnect); `turns` event-loop
@@ -622,12 +642,16 @@ async def settle(rig, pump=True, budget=20000):
                 continue
             if name == "get" and fn.endswith("queues.py"):
                 continue  # sender task waiting for its subscription queue
+            if name == "wait" and ("_send", __file__) in chain and any(cc.stalled for cc in rig.conns):
+                continue  # sender task of a connection whose peer does not read
             if name == "sleep" and fn.endswith("tasks.py"):
                 sleeping = True
                 continue
-            if (name == "acquire" and fn.endswith("locks.py")) or (name == "put" and fn.endswith("queues.py")):
+            if ((name == "acquire" and fn.endswith("locks.py")) or (name == "put" and fn.endswith("queues.py"))
+                    or (name == "_wait" and fn.endswith("tasks.py"))):
                 # waiting for a semaphore/lock somebody else must release, or for room in a bounded queue somebody
-                # else must drain: if nothing else can run any more this wait never ends
+                # else must drain, or (asyncio.wait) for tasks that are themselves stuck that way: if nothing else can
+                # run any more this wait never ends
                 lockwait.append(chain)
                 continue
             busy = True
